@@ -1,8 +1,91 @@
+//! C16 (built WITH `enable`): spans that are not recording — created before a reporter is
+//! installed, derived from a no-op span, or local operations with no local parent — deliver
+//! nothing, create no context, and none of the property closures handed to them is invoked.
+//! Every closure-taking entry point of the public API is called once with a counting closure.
 use fastrace::prelude::*;
+use fastrace::verif_api as api;
+
+static mut CALLS: u32 = 0;
+fn kv() -> (&'static str, &'static str) {
+    unsafe { CALLS += 1 };
+    ("k", "v")
+}
+fn kvs() -> [(&'static str, &'static str); 1] {
+    unsafe { CALLS += 1 };
+    [("k", "v")]
+}
 
 #[kani::proof]
 fn smoke_noop() {
     let s = Span::noop();
     assert!(SpanContext::from_span(&s).is_none());
     assert!(s.elapsed().is_none());
+}
+
+// Span handle routes.  `before_reporter` chooses how the non-recording span is obtained: a root
+// created while no reporter is installed (any context), or Span::noop().
+#[kani::proof]
+#[kani::unwind(3)]
+fn noop_span_routes_lazy() {
+    api::env_thread0();
+    let before_reporter: bool = kani::any();
+    let base = if before_reporter {
+        api::set_reporter_ready(false);
+        let ctx = SpanContext::new(TraceId(kani::any()), SpanId(kani::any())).sampled(kani::any());
+        Span::root("root", ctx)
+    } else {
+        Span::noop()
+    };
+    let base = base.with_property(kv).with_properties(kvs);
+    base.add_property(kv);
+    base.add_properties(kvs);
+    let child = Span::enter_with_parent("c", &base).with_property(kv).with_properties(kvs);
+    child.add_property(kv);
+    child.add_properties(kvs);
+    assert!(SpanContext::from_span(&base).is_none() && SpanContext::from_span(&child).is_none());
+    assert!(base.elapsed().is_none() && child.elapsed().is_none());
+    base.cancel();
+    let g = child.set_local_parent();
+    assert!(SpanContext::current_local_parent().is_none(), "a non-recording span became a local parent");
+    assert!(api::depth() == 0);
+    drop(g);
+    drop(child);
+    drop(base);
+    assert!(unsafe { CALLS } == 0, "a property closure of a non-recording span was invoked");
+    assert!(api::pushed() == 0, "a non-recording span handed something to the collector");
+    kani::cover!(before_reporter);
+    kani::cover!(!before_reporter);
+}
+
+// The same for a span derived from the thread's local parent when there is none.
+#[kani::proof]
+#[kani::unwind(3)]
+fn noop_local_parent_child_lazy() {
+    api::env_thread0();
+    let s = Span::enter_with_local_parent("lp").with_property(kv).with_properties(kvs);
+    s.add_property(kv);
+    s.add_properties(kvs);
+    assert!(SpanContext::from_span(&s).is_none() && s.elapsed().is_none());
+    drop(s);
+    assert!(unsafe { CALLS } == 0, "a property closure of a non-recording span was invoked");
+    assert!(api::pushed() == 0 && api::depth() == 0);
+    kani::cover!(true);
+}
+
+// Local-span routes with no local parent in scope.
+#[kani::proof]
+#[kani::unwind(3)]
+fn noop_local_routes_lazy() {
+    api::env_thread0();
+    let l = LocalSpan::enter_with_local_parent("l").with_property(kv).with_properties(kvs);
+    LocalSpan::add_property(kv);
+    LocalSpan::add_properties(kvs);
+    LocalSpan::add_event(Event::new("e"));
+    let l2 = LocalSpan::enter_with_local_parent("l2").with_properties(kvs);
+    drop(l2);
+    drop(l);
+    assert!(SpanContext::current_local_parent().is_none());
+    assert!(unsafe { CALLS } == 0, "a property closure was invoked with no local parent in scope");
+    assert!(api::pushed() == 0 && api::depth() == 0, "a local operation with no local parent left something behind");
+    kani::cover!(true);
 }
